@@ -282,12 +282,22 @@ class PDFXRefStream(PDFBaseXRef):
         (_, stream) = parser.nextobject()
         if not isinstance(stream, PDFStream) or stream.get("Type") is not LITERAL_XREF:
             raise PDFNoValidXRef("Invalid PDF stream spec.")
-        size = stream["Size"]
+        size = stream.get("Size")
         index_array = stream.get("Index", (0, size))
+        widths = stream.get("W")
+        if (
+            not isinstance(index_array, (list, tuple))
+            or not all(isinstance(n, int) for n in index_array)
+            or not isinstance(widths, list)
+            or len(widths) != 3
+            or not all(isinstance(n, int) and n >= 0 for n in widths)
+        ):
+            # /Size, /Index and /W must be (arrays of) integers
+            raise PDFNoValidXRef("Invalid cross-reference stream dictionary.")
         if len(index_array) % 2 != 0:
             raise PDFSyntaxError("Invalid index number")
         self.ranges.extend(cast(Iterator[Tuple[int, int]], choplist(2, index_array)))
-        (self.fl1, self.fl2, self.fl3) = stream["W"]
+        (self.fl1, self.fl2, self.fl3) = widths
         assert self.fl1 is not None and self.fl2 is not None and self.fl3 is not None
         self.data = stream.get_data()
         self.entlen = self.fl1 + self.fl2 + self.fl3
